@@ -218,4 +218,27 @@ def reportSubstreamOpen (protocols : List Bytes) (fallbackNames : List (Bytes ×
     | none => (negotiated, none)
   if protocol ∈ protocols then some (protocol, fallback) else none
 
+/-- The `fallback → main` map of `ProtocolSet::new`, from the installed protocols
+`(main, context.fallback_names)`: `protocols.iter().flat_map(|(protocol, context)|
+context.fallback_names.iter().map(|fallback| (fallback.clone(), protocol.clone())))`. (The code
+collects into a `HashMap`; when a fallback name belongs to two protocols the iteration order of the
+outer map decides, which this list does not model: see `Unambiguous`.) -/
+def buildFallbackNames (installed : List (Bytes × List Bytes)) : List (Bytes × Bytes) :=
+  installed.flatMap fun e => e.2.map fun f => (f, e.1)
+
+/-- `ProtocolSet::new` followed by `report_substream_open`. -/
+def reportInstalled (installed : List (Bytes × List Bytes)) (negotiated : Bytes) : Option (Bytes × Option Bytes) :=
+  reportSubstreamOpen (installed.map (·.1)) (buildFallbackNames installed) negotiated
+
+/-- The names a connection offers to a remote dialer (`protocols_with_keep_alives().keys()`): main
+and fallback names, without repetition. -/
+def offeredNames (installed : List (Bytes × List Bytes)) : List Bytes :=
+  (installed.map (·.1) ++ (buildFallbackNames installed).map (·.1)).eraseDups
+
+/-- The installed protocols are the keys of a map (distinct), and no fallback name belongs to two
+of them (otherwise hash-map iteration order decides which protocol gets the substream). -/
+def unambiguousB : List (Bytes × List Bytes) → Bool
+  | [] => true
+  | e :: rest => rest.all (fun o => e.1 != o.1 && !(e.2.any (fun f => o.2.contains f))) && unambiguousB rest
+
 end Litep2pVerif.Mss
